@@ -61,7 +61,7 @@ Record state := mkSt { globals : list (string * value); cells : list value; heap
                        out : list string;            (* printed lines, newest first *)
                        trace : list event }.
 
-Definition st0 : state := mkSt [] [] [] [] cs0 [object_def] [] [].
+Definition st0 : state := mkSt [("Object", VClass 0)] [] [] [] cs0 [object_def] [] [].
 
 Definition set_globals st g := mkSt g (cells st) (heap st) (closures st) (mstore st) (hist st) (out st) (trace st).
 Definition set_cells st c := mkSt (globals st) c (heap st) (closures st) (mstore st) (hist st) (out st) (trace st).
@@ -566,6 +566,31 @@ Fixpoint stmt_known (in_fn : bool) (s : stmt) : bool :=
 
 Definition known_class (p : prog) : bool := existsb (stmt_known false) p.
 
+(* ---------- the metamorphic variant: every statement-level `e.n(args)` becomes `var t = e.n; t(args)` ---------- *)
+Fixpoint meta_stmt (s : stmt) : list stmt :=
+  let body := fix go (l : list stmt) : list stmt :=
+    match l with [] => [] | x :: r => (meta_stmt x ++ go r)%list end in
+  match s with
+  | SExpr (EInvoke e n args) => [SBlock [SVar "tmp_" (EGet e n); SExpr (ECall (EVar "tmp_") args)]]
+  | SPrint (EInvoke e n args) => [SBlock [SVar "tmp_" (EGet e n); SPrint (ECall (EVar "tmp_") args)]]
+  | SVar x (EInvoke e n args) => [SVar (x ++ "_f") (EGet e n); SVar x (ECall (EVar (x ++ "_f")) args)]
+  | SClass (CDecl name sup defctor ms label) =>
+    [SClass (CDecl name sup defctor
+       ((fix gm (l : list mdecl) : list mdecl :=
+           match l with
+           | [] => []
+           | MDecl k n ps b lab :: r =>
+             MDecl k n ps ((fix go (l' : list stmt) : list stmt :=
+                              match l' with [] => [] | x :: r' => (meta_stmt x ++ go r')%list end) b) lab :: gm r
+           end) ms) label)]
+  | SFun name ps b label => [SFun name ps (body b) label]
+  | SBlock b => [SBlock (body b)]
+  | STry b => [STry (body b)]
+  | other => [other]
+  end.
+
+Definition meta_prog (p : prog) : prog := flat_map meta_stmt p.
+
 (* ---------- rendering to yarel source (lines) ---------- *)
 Fixpoint render_expr (e : expr) : string :=
   let args := fix go (l : list expr) : string :=
@@ -642,8 +667,10 @@ Definition render (p : prog) : list string := flat_map (render_stmt 0) p.
 Definition render_text (p : prog) : string := show_sep sep (fun x => x) (render p).
 
 (* one string per program for the correspondence check:
-   spec outcome | mech outcome | M's class tables | nontrivial | known class | source *)
+   spec outcome | mech outcome | M's class tables | nontrivial | known class | source |
+   mech outcome of the metamorphic variant | its source *)
 Definition run_case (p : prog) : string :=
   let m := eval_mech p in
   show_outcome (eval_spec p) ++ "|" ++ show_outcome m ++ "|" ++ show_tables (fst m) ++ "|"
-  ++ show_bool (nontrivial (fst m)) ++ "|" ++ show_bool (known_class p) ++ "|" ++ render_text p.
+  ++ show_bool (nontrivial (fst m)) ++ "|" ++ show_bool (known_class p) ++ "|" ++ render_text p ++ "|"
+  ++ show_outcome (eval_mech (meta_prog p)) ++ "|" ++ render_text (meta_prog p).
